@@ -627,6 +627,41 @@ func (h *c09hist) step() {
 		}
 		h.model = after
 		h.flags["append-list"] = true
+	case opk < 90 && len(*h.db) > 0: // list-level AppendBytes on one of the database's own lists
+		li := rng.Intn(len(*h.db))
+		l := (*h.db)[li]
+		if l.SignatureType != signature.CERT_SHA256_GUID && l.SignatureType != signature.CERT_X509_GUID {
+			return
+		}
+		_, _, o, d, desc := pick()
+		if l.SignatureType == signature.CERT_SHA256_GUID && rng.Intn(3) > 0 {
+			d = u.datas[rng.Intn(3)]
+		}
+		h.log = append(h.log, fmt.Sprintf("List[%d].AppendBytes(%s,%dB)", li, desc, len(d)))
+		h.kinds = append(h.kinds, "ListAppendBytes")
+		h.r.Count("op_ListAppendBytes", 1)
+		var err error
+		if p := tryP(func() { err = l.AppendBytes(o, append([]byte(nil), d...)) }); p != "" {
+			h.viol("List.AppendBytes|panic", p)
+			return
+		}
+		after := flatten(h.db)
+		if err != nil {
+			if !seqEq(after, before) {
+				h.viol("List.AppendBytes|refused-but-changed", "a refused list-level append changed the database")
+			}
+			h.model = after
+			break
+		}
+		// accepted: exactly one entry more, at the end of that list, everything else as before
+		pos := 0
+		for k := 0; k <= li; k++ {
+			pos += len((*h.db)[k].Signatures)
+		}
+		if len(after) != len(before)+1 || pos < 1 || !seqEq(append(append([]mEntry(nil), after[:pos-1]...), after[pos:]...), before) {
+			h.viol("List.AppendBytes|wrong-effect", "an accepted list-level append did not add exactly one entry at the end of that list")
+		}
+		h.model = after
 	default: // encode → decode → continue
 		handled := true
 		for _, l := range *h.db {
